@@ -18,7 +18,15 @@ use cipher::{
     BlockCipherEncClosure, BlockCipherEncrypt, BlockSizeUser, ParBlocks,
 };
 
-/// Probe closure: mentions every backend entry point for encryption.
+/// A value the analysis knows nothing about.  Never executed; the abstract interpreter models a call to this
+/// function as "any value of type T".
+#[inline(never)]
+pub fn verif_unknown<T>() -> T {
+    loop {}
+}
+
+/// Probe closure: mentions every backend entry point for encryption, on unknown data, both with separate
+/// input/output buffers and in place.
 pub struct EncProbe<'i, 'o, BS: cipher::crypto_common::BlockSizes>(pub InOut<'i, 'o, Array<u8, BS>>);
 impl<'i, 'o, BS: cipher::crypto_common::BlockSizes> BlockSizeUser for EncProbe<'i, 'o, BS> {
     type BlockSize = BS;
@@ -27,13 +35,21 @@ impl<'i, 'o, BS: cipher::crypto_common::BlockSizes> BlockCipherEncClosure for En
     #[inline(never)]
     fn call<B: BlockCipherEncBackend<BlockSize = BS>>(self, backend: &B) {
         backend.encrypt_block(self.0);
-        let mut pb = ParBlocks::<B>::default();
-        backend.encrypt_par_blocks(InOut::from(&mut pb));
-        let mut tail = [Block::<B>::default(); 1];
-        backend.encrypt_tail_blocks(InOutBuf::from(&mut tail[..]));
-        backend.encrypt_block_inplace(&mut tail[0]);
-        backend.encrypt_par_blocks_inplace(&mut pb);
-        backend.encrypt_tail_blocks_inplace(&mut tail[..]);
+        let mut blk: Block<B> = verif_unknown();
+        backend.encrypt_block(InOut::from(&mut blk));
+        backend.encrypt_block_inplace(&mut blk);
+        let pb_in: ParBlocks<B> = verif_unknown();
+        let mut pb_out: ParBlocks<B> = verif_unknown();
+        backend.encrypt_par_blocks(InOut::from((&pb_in, &mut pb_out)));
+        backend.encrypt_par_blocks(InOut::from(&mut pb_out));
+        backend.encrypt_par_blocks_inplace(&mut pb_out);
+        if <B::ParBlocksSize as cipher::typenum::Unsigned>::USIZE > 1 {
+            let mut tail: [Block<B>; 1] = verif_unknown();
+            backend.encrypt_tail_blocks(InOutBuf::from(&mut tail[..]));
+            backend.encrypt_tail_blocks_inplace(&mut tail[..]);
+        }
+        let mut empty: [Block<B>; 0] = [];
+        backend.encrypt_tail_blocks(InOutBuf::from(&mut empty[..]));
     }
 }
 
@@ -46,13 +62,21 @@ impl<'i, 'o, BS: cipher::crypto_common::BlockSizes> BlockCipherDecClosure for De
     #[inline(never)]
     fn call<B: BlockCipherDecBackend<BlockSize = BS>>(self, backend: &B) {
         backend.decrypt_block(self.0);
-        let mut pb = ParBlocks::<B>::default();
-        backend.decrypt_par_blocks(InOut::from(&mut pb));
-        let mut tail = [Block::<B>::default(); 1];
-        backend.decrypt_tail_blocks(InOutBuf::from(&mut tail[..]));
-        backend.decrypt_block_inplace(&mut tail[0]);
-        backend.decrypt_par_blocks_inplace(&mut pb);
-        backend.decrypt_tail_blocks_inplace(&mut tail[..]);
+        let mut blk: Block<B> = verif_unknown();
+        backend.decrypt_block(InOut::from(&mut blk));
+        backend.decrypt_block_inplace(&mut blk);
+        let pb_in: ParBlocks<B> = verif_unknown();
+        let mut pb_out: ParBlocks<B> = verif_unknown();
+        backend.decrypt_par_blocks(InOut::from((&pb_in, &mut pb_out)));
+        backend.decrypt_par_blocks(InOut::from(&mut pb_out));
+        backend.decrypt_par_blocks_inplace(&mut pb_out);
+        if <B::ParBlocksSize as cipher::typenum::Unsigned>::USIZE > 1 {
+            let mut tail: [Block<B>; 1] = verif_unknown();
+            backend.decrypt_tail_blocks(InOutBuf::from(&mut tail[..]));
+            backend.decrypt_tail_blocks_inplace(&mut tail[..]);
+        }
+        let mut empty: [Block<B>; 0] = [];
+        backend.decrypt_tail_blocks(InOutBuf::from(&mut empty[..]));
     }
 }
 
